@@ -414,6 +414,20 @@ def check_threaded(ctx, case):
         ctx.count('threaded_single_preemption_schedules', y0 + 1)
 
 
+def check_sequence(ctx, case):
+    """One name and one secret, a sequence of values that are equal under == but differ in type / representation
+    (1, True, 1.0; 0, False, 0.0, -0.0; tuples thereof): every value must read back exactly, whatever was signed before."""
+    name, secret = case['name'], case['secret']
+    for v in case['values']:
+        data = from_plain(v)
+        emitted = set_and_collect([{'name': name, 'secret': secret, 'data': v}])
+        (jar, val), = read_back(emitted[name], [(name, secret)])
+        if not same(val, data):
+            raise CheckFailure(f'signed cookie {name!r}: value {data!r} set after {case["values"]!r}[:...] reads back as {val!r}')
+        ctx.evals += 1
+    ctx.nontrivial('seq:' + repr(case))
+
+
 def witness_k15(ctx):
     """Pinned witness of open finding K15 (plain cookie above U+00FF)."""
     c = [{'name': 'w', 'secret': None, 'value': 'Ω'}]
@@ -429,7 +443,7 @@ def witness_k15(ctx):
 
 def run(ctx):
     for name, case in load_corpus(ID):
-        ctx.guarded(check_threaded if 'threaded' in case else (check_tamper if 'other_secret' in case else check_roundtrip), case)
+        ctx.guarded(check_sequence if 'sequence' in case else check_threaded if 'threaded' in case else (check_tamper if 'other_secret' in case else check_roundtrip), case)
         ctx.count('corpus')
     if ctx.shard == 0:
         ctx.guarded(lambda c, _: witness_k15(c), {'witness': 'K15'})
@@ -447,6 +461,14 @@ def run(ctx):
     m = 25 if ctx.tier == 'quick' else 150
     ctx.hyp(tamper_case(), check_tamper, m, label='tamper', shrink=False)
     if ctx.shard == 0:
+        import itertools
+        groups = [[1, True, {'$float': '1.0'}], [0, False, {'$float': '0.0'}, {'$float': '-0.0'}], [{'$tuple': [1, 'x']}, {'$tuple': [True, 'x']}], ['1', 1], [None, 0, ''],
+                  [{'$bytes': '61'}, 'a'], [{'$tuple': []}, []], [{'$float': '2.0'}, 2]]
+        for g in groups:
+            for perm in itertools.permutations(g):
+                ctx.guarded(check_sequence, {'sequence': True, 'name': 'seq', 'secret': 's3cret', 'values': list(perm)})
+        ctx.count('equal_but_distinct_value_sequences')
+    if ctx.shard == 0:
         for old, new in (('old-secret', 'new-secret'), ('k', 'K'), ('é', 'e')):
             ctx.guarded(check_threaded, {'threaded': True, 'old': old, 'new': new, 'name': 'sid', 'data': ['user', 7]})
 
@@ -456,4 +478,6 @@ def replay(ctx, case):
         return witness_k15(ctx)
     if 'threaded' in case:
         return check_threaded(ctx, case)
+    if 'sequence' in case:
+        return check_sequence(ctx, case)
     (check_tamper if 'other_secret' in case else check_roundtrip)(ctx, case)
